@@ -4,7 +4,7 @@
 
 use crate::util::*;
 use crate::Args;
-use re::math::color::{rgb, Color3f};
+use re::math::color::{rgb, rgba, Color3f, Color4f};
 use re::math::point::{pt2, Point2};
 use re::math::space::{Affine, Linear};
 use re::math::spline::{BezierSpline, CubicBezier};
@@ -46,6 +46,12 @@ impl Coords for Color3f {
     fn dcomps(d: &Color3f) -> Vec<f32> { vec![d.r(), d.g(), d.b()] }
 }
 
+impl Coords for Color4f {
+    fn make(c: &[f32]) -> Self { rgba(c[0], c[1], c[2], c[3]) }
+    fn comps(&self) -> Vec<f32> { self.0.to_vec() }
+    fn dcomps(d: &Color4f) -> Vec<f32> { d.0.to_vec() }
+}
+
 /// control points from the per-coordinate lists, divided by `den` (non-dyadic values)
 fn points<T: Coords>(pc: &Value, den: f32) -> Vec<T> {
     let coords = pc.as_array().unwrap();
@@ -63,10 +69,11 @@ fn run<T: Coords>(case: &Value) -> Option<Vec<(&'static str, Value)>> {
         let v = (x as f64 * den as f64 * SC).round();
         if v.is_finite() { v.clamp(-2e9, 2e9) as i64 } else { 2_000_000_000 }
     };
+    let tnan = case.get("tnan").and_then(|v| v.as_i64()).unwrap_or(0) == 1;
     guard(|| match op.as_str() {
         "cubic" => {
             let p: Vec<T> = points(&case["P"], den);
-            let t = gi(case, "kk") as f32 / 64.0;
+            let t = if tnan { f32::NAN } else { gi(case, "kk") as f32 / 64.0 };
             let cb = CubicBezier([p[0].clone(), p[1].clone(), p[2].clone(), p[3].clone()]);
             let (ev, fev, tan) = (cb.eval(t), cb.fast_eval(t), cb.tangent(t));
             let endp = if t <= 0.0 { &p[0] } else { &p[3] };
@@ -82,7 +89,7 @@ fn run<T: Coords>(case: &Value) -> Option<Vec<(&'static str, Value)>> {
             let zero = T::make(&vec![0.0; case["P"].as_array().unwrap().len()]);
             let rays: Vec<re::geom::Ray<T, T::Diff>> = p.iter().zip(&v).map(|(p, v)| re::geom::Ray(p.clone(), v.sub(&zero))).collect();
             let sp = BezierSpline::from_rays(rays);
-            let t = gi(case, "kk") as f32 / 64.0;
+            let t = if tnan { f32::NAN } else { gi(case, "kk") as f32 / 64.0 };
             let (ev, tan) = (sp.eval(t), sp.tangent(t));
             let endp = if t <= 0.0 { p[0].clone() } else { p.last().unwrap().clone() };
             vec![("ev", json!(ev.comps().iter().map(|x| s(*x)).collect::<Vec<_>>())), ("end", json!((ev == endp) as u8)),
@@ -91,7 +98,7 @@ fn run<T: Coords>(case: &Value) -> Option<Vec<(&'static str, Value)>> {
         "spline" => {
             let c: Vec<T> = points(&case["C"], den);
             let sp = BezierSpline::new(&c);
-            let t = gi(case, "kk") as f32 / 64.0;
+            let t = if tnan { f32::NAN } else { gi(case, "kk") as f32 / 64.0 };
             let ev = sp.eval(t);
             let tan = sp.tangent(t);
             let endp = if t <= 0.0 { &c[0] } else { c.last().unwrap() };
@@ -161,10 +168,12 @@ pub fn exec(case: &Value) -> Value {
         "pt2" => run::<Point2>(case),
         "vec3" => run::<Vec3>(case),
         "col3" => run::<Color3f>(case),
+        "col4" => run::<Color4f>(case),
         _ => run::<f32>(case),
     };
     let mut e = case.clone();
     let o = e.as_object_mut().unwrap();
+    o.entry("tnan").or_insert(json!(0));
     match r {
         Some(fields) => {
             for (k, v) in fields {
@@ -195,7 +204,7 @@ pub fn gen(args: &Args, out: &mut dyn Write) {
     let thorough = args.tier == "thorough";
     let n = args.n.unwrap_or(if thorough { 400_000 } else { 6_000 });
     let mut rng = Rng::new(args.seed ^ 0x5B11E);
-    let tys = [("f32", 1usize), ("vec2", 2), ("pt2", 2), ("vec3", 3), ("col3", 3)];
+    let tys = [("f32", 1usize), ("vec2", 2), ("pt2", 2), ("vec3", 3), ("col3", 3), ("col4", 4)];
     for i in 0..n {
         let (ty, nc) = tys[i % tys.len()];
         // control points over several magnitudes, non-dyadic-friendly values included
@@ -205,7 +214,7 @@ pub fn gen(args: &Args, out: &mut dyn Write) {
             0..=4 => {
                 let p: Vec<Vec<i64>> = (0..nc).map(|_| (0..4).map(|_| rng.range(-mag, mag)).collect()).collect();
                 let k = match rng.below(8) { 0 => 0, 1 => 64, 2 => -rng.range(1, 32), 3 => 64 + rng.range(1, 32), _ => rng.range(1, 63) };
-                writeln!(out, "{}", json!({"k": key, "op": "cubic", "ty": ty, "P": p, "kk": k, "den": *rng.pick(&[1i64, 1, 10, 7, 3])})).unwrap();
+                writeln!(out, "{}", json!({"k": key, "op": "cubic", "ty": ty, "P": p, "kk": k, "tnan": (i % 37 == 5) as u8, "den": *rng.pick(&[1i64, 1, 10, 7, 3])})).unwrap();
             }
             5..=7 if i % 9 == 4 => {
                 // from_rays: one to nine rays (one ray cannot make a curve)
@@ -221,11 +230,11 @@ pub fn gen(args: &Args, out: &mut dyn Write) {
                 let c: Vec<Vec<i64>> = (0..nc).map(|_| (0..3 * segs + 1).map(|_| rng.range(-mag, mag)).collect()).collect();
                 // lattice parameters, and exactly the joins j / segs when representable on the lattice
                 let k = match rng.below(6) { 0 => 0, 1 => 64, 2 => (64 / segs) * rng.range(0, segs), 3 => -5, 4 => 70, _ => rng.range(1, 63) };
-                writeln!(out, "{}", json!({"k": key, "op": "spline", "ty": ty, "C": c, "kk": k, "den": *rng.pick(&[1i64, 1, 10, 7, 3])})).unwrap();
+                writeln!(out, "{}", json!({"k": key, "op": "spline", "ty": ty, "C": c, "kk": k, "tnan": (i % 23 == 6) as u8, "den": *rng.pick(&[1i64, 1, 10, 7, 3])})).unwrap();
             }
             _ => {
                 let segs = rng.range(1, 4);
-                let (ty, nc) = if i % 20 < 10 { ("vec2", 2) } else { ("f32", 1) };
+                let (ty, nc) = if i % 20 < 10 { ("vec2", 2) } else if i % 60 == 19 { ("col4", 4) } else { ("f32", 1) };
                 let c: Vec<Vec<i64>> = (0..nc).map(|_| (0..3 * segs + 1).map(|_| rng.range(-mag, mag)).collect()).collect();
                 let policy = match rng.below(6) {
                     0 | 1 => json!({"kind": "seeded", "seed": rng.below(1 << 30), "p": rng.range(4, 9), "eps": 0.0}),
